@@ -4601,6 +4601,18 @@ Case_BaseLdurStur:
         opcode.add_imm(q, 30);
         opcode.add_imm(len, 13);
 
+        // Only the first table register is encoded - the others must be the consecutive ones (modulo 32).
+        {
+          const Operand_* table_regs[4] = { &o1, &o2, &o3, &o4 };
+          for (uint32_t i = 1; i <= len; i++) {
+            if (!check_signature(o1, *table_regs[i]))
+              goto InvalidInstruction;
+
+            if (table_regs[i]->id() != ((o1.id() + i) & 31u))
+              goto InvalidPhysId;
+          }
+        }
+
         switch (len) {
           case 0:
             if (!check_signature(o0, o2))
